@@ -234,6 +234,14 @@ func (c *C13Case) Run() string {
 			if m := compareAt(t, arr, bitEqVal); m != "" {
 				return fmt.Sprintf("%s: Reshape(%v) was refused (%v) but changed the tensor: %s", desc, c.Target, rerr, m)
 			}
+			if !b.Detached {
+				if diff := b.FrameDiff(b.RootE); diff != "" {
+					return fmt.Sprintf("%s: Reshape(%v) was refused (%v) but wrote to the storage: %s", desc, c.Target, rerr, diff)
+				}
+			}
+			if m := derivedProbe(t, arr); m != "" {
+				return fmt.Sprintf("%s: Reshape(%v) was refused (%v) but left the tensor in another state: %s", desc, c.Target, rerr, m)
+			}
 			rec.Class("reshape-refused")
 			return ""
 		}
@@ -332,6 +340,14 @@ func TestC13(t *testing.T) {
 					if specs[i].K == "rng" && specs[i].S > 1 {
 						specs[i].S = 1
 					}
+				}
+			}
+			// now and then a negative step: whatever the slicing does with it (this check has no model of its
+			// own), the shape calculator has to predict the same
+			if len(specs) > 0 && rapid.IntRange(0, 7).Draw(rt, "negstep") == 0 {
+				i := rapid.IntRange(0, len(specs)-1).Draw(rt, "negwhich")
+				if specs[i].K == "rng" {
+					specs[i].S = -rapid.IntRange(1, 2).Draw(rt, "neg")
 				}
 			}
 			return &C13Case{Kind: "slice", Shape: shape, L: genLayoutKind(rt, lk, len(shape), "l"), Specs: specs}
